@@ -211,10 +211,16 @@ theorem popitem_end (x : Index) (E : Externals) (now : Int) (last : Bool) (h : O
       rw [hput]
       exact Cache.live_visible_partial c (by rw [c1, b1]; exact h.inv.tbl.uniq) r
         (by rw [c1, b1]; exact hr) (h.inv.tbl.nonnull r hr) now (Cache.live_of_noexp (h.noexp r hr) now)
-    obtain ⟨-, d2, -⟩ := Cache.delitem_some c E now _ r hsel
-    refine ⟨?_, ?_⟩
-    · rw [Cache.tend_rows, d2, c1, b1]
-    · rw [hfe, b2]
+    obtain ⟨d1, d2, -⟩ := Cache.delitem_some c E now _ r hsel
+    cases hdd : c.delitem E now (DC.get E x.cache.tbegin.cfg.disk r.key r.raw) with
+    | mk c2 o2 =>
+      rw [hdd] at d1 d2
+      simp only at d1 d2
+      subst d1
+      simp only
+      refine ⟨?_, ?_⟩
+      · rw [Cache.tend_rows, d2, c1, b1]
+      · rw [hfe, b2]
 
 /-- `hcodec` holds for every row whose stored key is the encoding of some Python key, when the
 codecs are lawful — that is, for every row an Index ever writes -/
@@ -229,8 +235,9 @@ theorem codec_of_put (x : Index) (E : Externals) (hE : Lawful E) (h : Ok x) (r :
   exact Cache.put_get_put E hE k
 
 /-- why `popitem_end` needs `hcodec`: a well-formed Index whose only row has a key that is not the
-encoding of any Python key (an integer outside int64 stored raw).  `popitem` returns the item but
-`del self[key]` looks for the pickled key, finds nothing, and the row stays. -/
+encoding of any Python key (an integer outside int64 stored raw).  `popitem` reads the item but
+`del self[key]` looks for the pickled key, finds nothing and raises KeyError; the block is rolled
+back and the row stays. -/
 def exBigRow : Row :=
   { rowid := 1, key := .int 18446744073709551616, raw := true, storeT := 0, expT := none, accT := 0,
     accN := 0, tag := .null, size := 0, mode := 1, file := none, val := .int 0 }
